@@ -106,15 +106,20 @@ class MemoryWorkflowStore(AbstractWorkflowStore):
 
     async def update(self, handler: PersistentHandler) -> None:
         self.handlers[handler.handler_id] = handler
+        # The queue holds exactly the handlers that are terminal right now, one
+        # entry each: a repeated terminal write moves the handler to the back, and
+        # a handler upserted into a non-terminal row is no completion any more
+        # (a stale entry would count towards the cap and evict a newer one early).
+        self._forget_terminal(handler.handler_id)
         if is_terminal_status(handler.status):
-            # one queue entry per handler: a repeated terminal write moves the
-            # handler to the back instead of counting it twice
-            try:
-                self._terminal_queue.remove(handler.handler_id)
-            except ValueError:
-                pass
             self._terminal_queue.append(handler.handler_id)
             self._evict_oldest_completed()
+
+    def _forget_terminal(self, handler_id: str) -> None:
+        try:
+            self._terminal_queue.remove(handler_id)
+        except ValueError:
+            pass
 
     async def delete(self, query: HandlerQuery) -> int:
         to_delete = [
@@ -124,6 +129,7 @@ class MemoryWorkflowStore(AbstractWorkflowStore):
         ]
         for handler_id in to_delete:
             del self.handlers[handler_id]
+            self._forget_terminal(handler_id)
         return len(to_delete)
 
     def _evict_oldest_completed(self) -> None:
